@@ -5,130 +5,9 @@
 (*   ChooseSchema ; for each level of the precedence order: Override, Bump,        *)
 (*   ResetLower (section levels: one step per index-addressed operation) ;          *)
 (*   BumpedTimestamp ; Normalize.                                                  *)
-(* Numbers are TLC integers, NONE = -1 is "unset".  The arguments `a` are chosen   *)
-(* in Init and never change; everything after Init is deterministic.               *)
-EXTENDS Schema, TLC
-
-NONE == -1
-DefaultOrder == <<"Epoch", "Major", "Minor", "Patch", "Core", "PreReleaseLabel", "PreReleaseNum",
-                  "Post", "Dev", "ExtraCore", "Build">>
-NoPre == [l |-> "none", n |-> NONE]
-Labels == {"alpha", "beta", "rc"}
-
-LevelIndex(order, lv) == CHOOSE i \in 1..Len(order) : order[i] = lv
-
-\* ------------------------------------------------------------------- resets --
-ResetOne(v, lv) ==
-  CASE lv = "Epoch" -> [v EXCEPT !.epoch = 0]
-    [] lv = "Major" -> [v EXCEPT !.major = 0]
-    [] lv = "Minor" -> [v EXCEPT !.minor = 0]
-    [] lv = "Patch" -> [v EXCEPT !.patch = 0]
-    [] lv = "PreReleaseLabel" -> [v EXCEPT !.pre = NoPre]
-    [] lv = "PreReleaseNum" -> IF v.pre.l # "none" THEN [v EXCEPT !.pre.n = 0] ELSE v
-    [] lv = "Post" -> [v EXCEPT !.post = NONE]
-    [] lv = "Dev" -> [v EXCEPT !.dev = NONE]
-    [] OTHER -> v                      \* section levels: literal components are never reset
-RECURSIVE ResetFrom(_, _, _)
-ResetFrom(v, order, i) == IF i > Len(order) THEN v ELSE ResetFrom(ResetOne(v, order[i]), order, i + 1)
-\* reset every level strictly lower than lv
-ResetLower(v, order, lv) == ResetFrom(v, order, LevelIndex(order, lv) + 1)
-
-\* --------------------------------------------------------------- level steps --
-Or0(x) == IF x = NONE THEN 0 ELSE x
-FieldOf(lv) == CASE lv = "Epoch" -> "epoch" [] lv = "Major" -> "major" [] lv = "Minor" -> "minor"
-                 [] lv = "Patch" -> "patch" [] lv = "Post" -> "post" [] lv = "Dev" -> "dev"
-\* a numeric level: override sets absolutely, bump adds and resets every lower level
-ProcNum(v, order, lv, ov, bp) ==
-  LET f  == FieldOf(lv)
-      v1 == IF ov # NONE THEN [v EXCEPT ![f] = ov] ELSE v
-  IN  IF bp # NONE THEN ResetLower([v1 EXCEPT ![f] = Or0(v1[f]) + bp], order, lv) ELSE v1
-\* pre-release number: creates an alpha pre-release when there is none
-ProcPreNum(v, order, ov, bp) ==
-  LET v1 == IF ov = NONE THEN v
-            ELSE IF v.pre.l = "none" THEN [v EXCEPT !.pre = [l |-> "alpha", n |-> ov]]
-            ELSE [v EXCEPT !.pre.n = ov]
-  IN  IF bp = NONE THEN v1
-      ELSE IF v1.pre.l # "none" THEN ResetLower([v1 EXCEPT !.pre.n = Or0(v1.pre.n) + bp], order, "PreReleaseNum")
-      ELSE ResetLower([v1 EXCEPT !.pre = [l |-> "alpha", n |-> bp]], order, "PreReleaseNum")
-\* pre-release label: override keeps (or creates) the number, bump resets and sets number 0
-ProcLabel(v, order, ovLabel, ovNum, bpLabel) ==
-  LET v1 == IF ovLabel = "" THEN v
-            ELSE [v EXCEPT !.pre = [l |-> ovLabel,
-                                    n |-> IF ovNum # NONE THEN ovNum
-                                          ELSE IF v.pre.l # "none" /\ v.pre.n # NONE THEN v.pre.n ELSE 0]]
-  IN  IF bpLabel = "" THEN v1
-      ELSE [ResetLower(v1, order, "PreReleaseLabel") EXCEPT !.pre = [l |-> bpLabel, n |-> 0]]
-
-ProcByName(v, order, lv, a) ==
-  CASE lv \in {"Epoch", "Major", "Minor", "Patch", "Post", "Dev"} ->
-         ProcNum(v, order, lv, a.ov[FieldOf(lv)], a.bp[FieldOf(lv)])
-    [] lv = "PreReleaseLabel" -> ProcLabel(v, order, a.ov.label, a.ov.prenum, a.bp.label)
-    [] lv = "PreReleaseNum"   -> ProcPreNum(v, order, a.ov.prenum, a.bp.prenum)
-
-\* ------------------------------------------------ index-addressed operations --
-\* op = [sec, kind ("ov" | "bump"), idx (may be negative), hasval, val]
-\* val = [t ("num" | "text" | "neg"), n, s]   (s = the text as written)
-SecOf(lv) == CASE lv = "Core" -> "core" [] lv = "ExtraCore" -> "extra" [] lv = "Build" -> "build"
-One == [t |-> "num", n |-> 1, s |-> <<49>>]
-NoVal == [t |-> "none", n |-> 0, s |-> <<>>]
-NormIdx(idx, len) == IF idx >= 0 THEN (IF idx < len THEN idx ELSE NONE)
-                     ELSE (IF len + idx >= 0 THEN len + idx ELSE NONE)
-OpsOf(a, sec, kind) == SelectSeq(a.ops, LAMBDA o : o.sec = sec /\ o.kind = kind)
-\* parse-and-validate of one section: "error" or the specs sorted by index
-SpecsOrError(a, sec, len) ==
-  LET ovs == OpsOf(a, sec, "ov")   bps == OpsOf(a, sec, "bump")
-      bad(o) == \/ NormIdx(o.idx, len) = NONE
-                \/ (o.kind = "ov" /\ ~o.hasval)
-                \/ (o.hasval /\ o.val.t = "neg")
-      dup(os) == \E i, j \in 1..Len(os) : i < j /\ NormIdx(os[i].idx, len) = NormIdx(os[j].idx, len)
-  IN  IF (\E i \in 1..Len(ovs) : bad(ovs[i])) \/ (\E i \in 1..Len(bps) : bad(bps[i])) \/ dup(ovs) \/ dup(bps)
-      THEN [err |-> TRUE, specs |-> <<>>]
-      ELSE LET idxs == { NormIdx(ovs[i].idx, len) : i \in 1..Len(ovs) } \cup { NormIdx(bps[i].idx, len) : i \in 1..Len(bps) }
-               ovAt(x) == IF \E i \in 1..Len(ovs) : NormIdx(ovs[i].idx, len) = x
-                          THEN ovs[CHOOSE i \in 1..Len(ovs) : NormIdx(ovs[i].idx, len) = x].val ELSE NoVal
-               bpAt(x) == IF \E i \in 1..Len(bps) : NormIdx(bps[i].idx, len) = x
-                          THEN LET o == bps[CHOOSE i \in 1..Len(bps) : NormIdx(bps[i].idx, len) = x]
-                               IN IF o.hasval THEN o.val ELSE One
-                          ELSE NoVal
-               RECURSIVE Sorted(_)
-               Sorted(S) == IF S = {} THEN <<>>
-                            ELSE LET m == CHOOSE x \in S : \A y \in S : x <= y
-                                 IN <<[i |-> m, ov |-> ovAt(m), bp |-> bpAt(m)]>> \o Sorted(S \ {m})
-           IN [err |-> FALSE, specs |-> Sorted(idxs)]
-
-NumOf(val) == IF val.t = "none" THEN NONE ELSE val.n
-NumericOk(val) == val.t \in {"none", "num"}
-VarLevel(name) == CASE name = "Major" -> "Major" [] name = "Minor" -> "Minor" [] name = "Patch" -> "Patch"
-                    [] name = "Epoch" -> "Epoch" [] name = "Post" -> "Post" [] name = "Dev" -> "Dev"
-\* apply one spec to the component at 0-based index spec.i of section sec;
-\* result [err, v, sch]
-ApplySpec(v, sch, order, sec, spec) ==
-  LET c == sch[sec][spec.i + 1] IN
-  IF c.t \in {"ts", "custom"} \/ (c.t = "var" /\ c.v \in ContextVars)
-  THEN [err |-> TRUE, v |-> v, sch |-> sch]
-  ELSE IF c.t = "var"
-  THEN IF ~NumericOk(spec.ov) \/ ~NumericOk(spec.bp) THEN [err |-> TRUE, v |-> v, sch |-> sch]
-       ELSE [err |-> FALSE, sch |-> sch,
-             v |-> IF c.v = "PreRelease" THEN ProcPreNum(v, order, NumOf(spec.ov), NumOf(spec.bp))
-                   ELSE ProcNum(v, order, VarLevel(c.v), NumOf(spec.ov), NumOf(spec.bp))]
-  ELSE IF c.t = "uint"
-  THEN IF ~NumericOk(spec.ov) \/ ~NumericOk(spec.bp) THEN [err |-> TRUE, v |-> v, sch |-> sch]
-       ELSE [err |-> FALSE, v |-> v,
-             sch |-> [sch EXCEPT ![sec][spec.i + 1].n =
-                        (IF spec.ov.t = "num" THEN spec.ov.n ELSE c.n) + (IF spec.bp.t = "num" THEN spec.bp.n ELSE 0)]]
-  ELSE \* a str literal: override replaces, "bump" replaces as well
-       [err |-> FALSE, v |-> v,
-        sch |-> [sch EXCEPT ![sec][spec.i + 1].s =
-                   IF spec.bp.t # "none" THEN spec.bp.s ELSE IF spec.ov.t # "none" THEN spec.ov.s ELSE c.s]]
-
-\* ------------------------------------------------------- argument validation --
-\* conflicts detected before anything is computed (src/cli/version/args/validation.rs)
-ArgsConflict(a) ==
-  \/ a.vcs.dirty /\ a.vcs.nodirty
-  \/ a.vcs.clean /\ (a.vcs.distance # NONE \/ a.vcs.dirty \/ a.vcs.nodirty)
-  \/ a.vcs.bc /\ a.vcs.nbc
-  \/ a.vcs.nbc /\ a.vcs.dirty
-  \/ a.ov.label # "" /\ a.bp.label # ""
+(* The arguments `a` are chosen in Init and never change; everything after Init is *)
+(* deterministic.  The operators are in ZervOps.                                   *)
+EXTENDS ZervOps
 
 \* ------------------------------------------------------------ the machine ---
 VARIABLES a, v, ctx, sch, pc, li, k, specs, err
